@@ -28,11 +28,22 @@ static int g_cur = -1;          // dispatch in progress, -1 if none
 static bool g_late = false;
 static int g_badthread = 0;
 static int g_nthread = 0;
+static int g_idclash = 0;
+static int g_owner[64];
 
 static void Task(const mjModel*, mjData*, void*, int thread_id, int task_id) {
   vf_sched_point(VF_YIELD, nullptr);
   if (g_cur < 0) g_late = true;
   if (thread_id < 0 || thread_id > g_nthread) g_badthread++;
+  // a thread id belongs to exactly one OS thread of the pool: id 0 is the dispatching thread, ids 1..n the workers
+  {
+    int self = vf_sched_self();
+    if ((thread_id == 0) != (self == 0)) g_idclash++;
+    if (thread_id >= 0 && thread_id < 64) {
+      if (g_owner[thread_id] < 0) g_owner[thread_id] = self;
+      else if (g_owner[thread_id] != self) g_idclash++;
+    }
+  }
   g_log.push_back({g_cur, task_id, thread_id, 0});
   int d = g_cur;
   vf_sched_point(VF_YIELD, nullptr);
@@ -52,7 +63,8 @@ static Result RunOnce(const std::vector<std::string>& ops, const std::vector<uns
                       long tail_seed = -1, int pswitch = 0) {
   Result r;
   mjData* d = static_cast<mjData*>(calloc(1, sizeof(mjData)));
-  g_log.clear(); g_cur = -1; g_late = false; g_badthread = 0; g_nthread = 0; g_mark = g_free = 0;
+  g_log.clear(); g_cur = -1; g_late = false; g_badthread = 0; g_nthread = 0; g_mark = g_free = 0; g_idclash = 0;
+  for (int i = 0; i < 64; i++) g_owner[i] = -1;
   vf_sched_begin(ch.data(), (int)ch.size());
   if (tail_seed >= 0) vf_sched_random_tail((unsigned long long)tail_seed, pswitch);
   int ndisp = 0;
@@ -62,6 +74,7 @@ static Result RunOnce(const std::vector<std::string>& ops, const std::vector<uns
       int n = op[0] == 'x' ? 0 : atoi(op.c_str() + 1);
       mju_threadpool(d, n);
       g_nthread = n;
+      for (int i = 0; i < 64; i++) g_owner[i] = -1;   // a new pool has new worker threads
       int want = n >= 1 ? n + 1 : 1;
       if (mju_numThread(d) != want) { r.violation = "mju_numThread != pool size + 1"; break; }
     } else if (op[0] == 'd') {
@@ -94,6 +107,7 @@ static Result RunOnce(const std::vector<std::string>& ops, const std::vector<uns
     }
     if (g_late) { r.violation = "task function ran outside its dispatch (after mju_dispatch returned)"; break; }
     if (g_badthread) { r.violation = "thread id outside [0, pool size]"; break; }
+    if (g_idclash) { r.violation = "thread id shared by two threads (or id 0 not the dispatching thread)"; break; }
   }
   if (r.violation.empty()) {
     mju_threadpool(d, 0);            // destroy joins every worker
